@@ -305,12 +305,20 @@ def run_scope(chk, scope, roots, floor_roots, floor_bodies, floor_sinks, reviewe
             chk.obligation(True)
             continue
         chk.obligation(False)
-        key = "%s|%s|%s" % (F.short_name(rec["origin"]), rec["cls"], rec["desc"])
-        failing_roots = sorted({F.short_name(bid) for bid, chain, t in rec["fails"]})
-        chain = rec["fails"][0][1]
-        chk.finding(key, rule="R-PANIC/%s" % rec["cls"], where="%s:%s" % (rec["file"], rec["line"]), fn=F.short_name(rec["origin"]),
-                    what=rec["what"], why="not discharged by D1-D8, not trusted (T1,T2,T5), not lifted to a caller that proves it",
-                    path=" <- ".join(F.short_name(x) for x in chain[:6]), undischarged_in=failing_roots[:6])
+        # one finding per (site, body in which the obligation stops being liftable): a known / reviewed entry covers exactly the
+        # call paths that were looked at -- the same site failing through a *new* caller is a new key
+        seen_final = set()
+        for bid_f, chain, t in rec["fails"]:
+            fin = F.short_name(bid_f)
+            if fin in seen_final:
+                continue
+            seen_final.add(fin)
+            key = "%s|%s|%s" % (F.short_name(rec["origin"]), rec["cls"], rec["desc"])
+            if fin != F.short_name(rec["origin"]):
+                key += "|in=" + fin
+            chk.finding(key, rule="R-PANIC/%s" % rec["cls"], where="%s:%s" % (rec["file"], rec["line"]), fn=F.short_name(rec["origin"]),
+                        what=rec["what"], why="not discharged by D1-D8, not trusted (T1,T2,T5), not lifted to a caller that proves it",
+                        path=" <- ".join(F.short_name(x) for x in chain[:6]), undischarged_in=fin)
     chk.floor("R-PANIC", "%s sinks classified" % scope, n_sinks, floor_sinks)
     chk.cov.setdefault("scopes", OrderedDict())[scope] = OrderedDict(
         roots=len(roots), reachable_bodies=len(bodies), sinks_by_class=dict(sorted(stats.items())),
